@@ -30,6 +30,7 @@ pub enum HintErrorKind {
     NegativeLoopCounter,
     InvalidJump,
     ExceededExecutionBudget,
+    InstanceMismatch,
 }
 
 impl core::fmt::Display for HintErrorKind {
@@ -81,6 +82,10 @@ impl core::fmt::Display for HintErrorKind {
             }
             Self::InvalidJump => write!(f, "the target of a jump instruction was invalid"),
             Self::ExceededExecutionBudget => write!(f, "too many instructions executed"),
+            Self::InstanceMismatch => write!(
+                f,
+                "hinting instance was not configured for the font that owns this outline"
+            ),
         }
     }
 }
